@@ -99,6 +99,10 @@ def _match_display_names_exact(
     for prop in importable_props:
         if prop in display_name_to_key:
             feature_key, idx = display_name_to_key[prop]
+            # Never replace a match that was already made in an earlier step: the
+            # property stays available as a custom property
+            if feature_key in mapping:
+                continue
             # Check if this is a multi-value feature (has other indices)
             is_multi_value = any(
                 k == feature_key and i != idx for _, (k, i) in display_name_to_key.items()
@@ -168,6 +172,10 @@ def _match_display_names_fuzzy(
 
         if closest:
             _, feature_key, idx = lower_display_map[closest[0]]
+            # Never replace a match that was already made (in an earlier step or for an
+            # earlier property): the property stays available as a custom property
+            if feature_key in mapping or idx in multi_value_matches.get(feature_key, {}):
+                continue
             # Check if this is a multi-value feature
             is_multi_value = any(
                 k == feature_key and i != idx for _, (k, i) in display_name_to_key.items()
@@ -200,6 +208,29 @@ def _map_remaining_to_self(remaining_props: list[str]) -> dict[str, str]:
         Dict mapping each prop -> itself (e.g., {"custom_col": "custom_col"})
     """
     return {prop: prop for prop in remaining_props}
+
+
+def _add_custom_mappings(
+    mapping: dict[str, str | list[str]], remaining_props: list[str]
+) -> None:
+    """Add the remaining properties to the mapping as custom properties (mapped to
+    themselves) without losing any property that is already mapped.
+
+    If a remaining property is spelled exactly like a key that was matched to other
+    properties, the exact spelling wins the key and the displaced properties become
+    custom properties themselves.
+
+    Args:
+        mapping: Mapping dict to update (modified in place)
+        remaining_props: List of property names that weren't matched
+    """
+    queue = list(_map_remaining_to_self(remaining_props))
+    while queue:
+        prop = queue.pop(0)
+        displaced = mapping.get(prop)
+        mapping[prop] = prop
+        if displaced is not None:
+            queue.extend(displaced if isinstance(displaced, list) else [displaced])
 
 
 def build_standard_fields(
@@ -312,8 +343,7 @@ def infer_node_name_map(
     props_left = _match_display_names_fuzzy(props_left, display_name_to_key, mapping)
 
     # Step 5: Map remaining properties to themselves (custom properties)
-    custom_mapping = _map_remaining_to_self(props_left)
-    mapping.update(custom_mapping)
+    _add_custom_mappings(mapping, props_left)
 
     return mapping
 
@@ -374,7 +404,6 @@ def infer_edge_name_map(
         props_left = _match_display_names_fuzzy(props_left, display_name_to_key, mapping)
 
     # Step 5: Map remaining properties to themselves (custom properties)
-    custom_mapping = _map_remaining_to_self(props_left)
-    mapping.update(custom_mapping)
+    _add_custom_mappings(mapping, props_left)
 
     return mapping
